@@ -62,6 +62,10 @@ def demo(wt: Path, d: Path) -> int:
 
 
 def main() -> int:
+    # --worktree: run the checks against the scratch worktree (REDUINO_REPO) instead of applying the patch to /repo - the same
+    # code path of the checks, used when /repo must stay untouched because other runs read it at the same time
+    in_wt = "--worktree" in sys.argv
+    sys.argv = [a for a in sys.argv if a != "--worktree"]
     ids = sys.argv[1:] or sorted(p.name for p in SEEDED.iterdir() if (p / "patch.diff").exists())
     base = json.load(open("/root/.vp/BASELINE.json"))
     head = sh(["git", "-C", "/repo", "rev-parse", "--short", "HEAD"]).stdout.strip()
@@ -101,12 +105,18 @@ def main() -> int:
             if sid in OBSOLETE and not meta["confirmed"]:
                 meta["obsolete"] = OBSOLETE[sid]
             checks = {}
-            sh(["git", "-C", "/repo", "apply", str(d / "patch.diff")])
+            if in_wt:
+                sh(["git", "-C", str(wt), "apply", str(d / "patch.diff")])
+            else:
+                sh(["git", "-C", "/repo", "apply", str(d / "patch.diff")])
             try:
                 for c in [prop] + EXTRA.get(sid, []):
                     out = tmp / f"out-{sid}-{c}"
                     t0 = time.time()
-                    p = sh([str(VERIF / "check"), c, "--tier", "quick"], env=dict(os.environ, VERIF_OUT=str(out)))
+                    env = dict(os.environ, VERIF_OUT=str(out))
+                    if in_wt:
+                        env["REDUINO_REPO"] = str(wt)
+                    p = sh([str(VERIF / "check"), c, "--tier", "quick"], env=env)
                     vio = [ln for ln in p.stdout.splitlines() if ln.startswith("VIOLATION")]
                     first = ""
                     ls = p.stdout.splitlines()
@@ -116,7 +126,11 @@ def main() -> int:
                             break
                     checks[c] = {"command": f"./check {c} --tier quick", "exit": p.returncode, "violation_lines": len(vio), "first": first, "wall_s": round(time.time() - t0, 1)}
             finally:
-                sh(["git", "-C", "/repo", "checkout", "-q", "--", "."])
+                if in_wt:
+                    sh(["git", "-C", str(wt), "checkout", "-q", "--", "."]); sh(["git", "-C", str(wt), "clean", "-fdq"])
+                else:
+                    sh(["git", "-C", "/repo", "checkout", "-q", "--", "."])
+            meta["applied_to"] = "scratch worktree via REDUINO_REPO" if in_wt else "/repo (git apply, reverted afterwards)"
             meta["checks_with_change_applied"] = checks
             meta["caught_by"] = sorted(c for c, v in checks.items() if v["exit"] == 1 and v["violation_lines"] > 0)
             meta["caught"] = prop in meta["caught_by"]
